@@ -112,7 +112,7 @@ pub fn check_geo(rt: &tokio::runtime::Runtime, dir: &Path, g: &Geo) -> Option<(&
 }
 
 pub fn run(ctx: &Ctx) -> Outcome {
-    let ps: Vec<usize> = ctx.tier.pick(vec![1, 2, 3, 4], vec![1, 2, 3, 4, 5, 7, 8]);
+    let ps: Vec<usize> = ctx.tier.pick(vec![1, 2, 3, 4, 5], vec![1, 2, 3, 4, 5, 6, 7, 8, 10, 12]);
     let geos = geometries(&ps, ctx.tier.pick(3, 4));
     let res = core::par_map(
         &geos,
